@@ -229,13 +229,14 @@ def run_c08(tier: str) -> int:
             pss = list(PATHSETS) if (tier == "thorough" or i % 3 == 0) else [list(PATHSETS)[i % 3]]
             for ps in pss:
                 for (real_kind, cap) in ([(kind, 0)] + ([(kind, 2)] if i % 4 == 0 or tier == "thorough" else [])
-                                         + ([("local@2", 0)] if kind == "local" and (i % 2 == 0 or tier == "thorough") else [])):
+                                         + ([("local@2", 0)] if kind == "local" and (i % 2 == 0 or tier == "thorough") else [])
+                                         + ([("local~linkdata", 0)] if kind == "local" and (i % 3 == 1 or tier == "thorough") else [])):
                     tasks.append((real_kind, cap, h, ps, False))
                     meta.append((kind, ps))
     results = run_all(tasks)
     nontriv = set()
     for ((kind, cap, h, ps, _), res) in zip(tasks, results):
-        sname = kind.replace("@2", "-two-handles") + ("+lru%d" % cap if cap else "")
+        sname = kind.replace("@2", "-two-handles").replace("~linkdata", "-symlinked-data-dir") + ("+lru%d" % cap if cap else "")
         if any(x["op"] in ("sync",) for x in h) and any(x["op"] == "fetch_paths" and x["ans"][0] == "M" for x in h):
             nontriv.add((sname, ps, json.dumps(h)))
         for (j, (x, o)) in enumerate(zip(h, res)):
@@ -320,6 +321,10 @@ def run_c12(tier: str) -> int:
                 ps = list(PATHSETS)[1]
                 tasks.append((kind, cap, h, ps, kind == "local"))   # wrapped
                 tasks.append((kind, 0, h, ps, False))                 # bare, lock step
+                if kind == "local" and i % 3 == 0:
+                    # two store objects (each with its own cache) over the same directories
+                    tasks.append(("local@2", cap, h, ps, False))
+                    tasks.append(("local@2", 0, h, ps, False))
     results = run_all(tasks)
     nontriv = set()
     n = 0
@@ -327,7 +332,7 @@ def run_c12(tier: str) -> int:
         (kind, cap, h, ps, _) = tasks[t]
         (wr, br) = (results[t], results[t + 1])
         n += 1
-        sname = "%s+lru%d" % (kind, cap)
+        sname = "%s+lru%d" % (kind.replace("@2", "-two-handles"), cap)
         evict = len(set(x["arg"] for x in h if x["op"] == "fetch")) > cap
         absent_probe = False
         stored = set()
@@ -437,7 +442,7 @@ def replay_file(prop: str, path: str) -> int:
     store = d["store"]
     (kind, cap) = (store.split("+lru")[0], int(store.split("+lru")[1]) if "+lru" in store else 0)
     handles = 2 if kind.endswith("-two-handles") else 1
-    kind = kind.replace("-two-handles", "")
+    kind = kind.replace("-two-handles", "").replace("-symlinked-data-dir", "~linkdata")
     ps = d.get("pathset") or PATHSETS["depth"]
     pmap = {int(k): v for (k, v) in ps.items()}
     root = common.sub_scratch("replay_one")
